@@ -5,6 +5,7 @@ import XMT.DecodeStream
 import XMT.DecodeSafe
 import XMT.FragHostile
 import XMT.Drv.C01
+import XMT.DispatchDrv
 namespace XMT.Drv.C04
 open XMT XMT.Decode XMT.Drv
 
@@ -145,6 +146,8 @@ def handle (args : List String) : String :=
       | .panic => "panic"
       | .ok (fs, outs) =>
         " ".intercalate (outs.map showFragOut) ++ s!" groups={fs.length} held={FragHostile.held fs}"
+  | "dsp-process" :: _ | "dsp-resolve" :: _ | "dsp-handle" :: _ | "dsp-recv" :: _ =>
+    XMT.Dispatch.Drv.handle args
   | _ => "bad-op"
 
 end XMT.Drv.C04
